@@ -144,44 +144,6 @@ Proof.
 Qed.
 
 (* ---------- strings ---------- *)
-Definition esc_step (f : nat) (e : N) (r2 acc : bytes) : option (bytes * bytes) :=
-    if e =? 34 then parse_str f r2 (34 :: acc)
-    else if e =? 92 then parse_str f r2 (92 :: acc)
-    else if e =? 47 then parse_str f r2 (47 :: acc)
-    else if e =? 98 then parse_str f r2 (8 :: acc)
-    else if e =? 102 then parse_str f r2 (12 :: acc)
-    else if e =? 110 then parse_str f r2 (10 :: acc)
-    else if e =? 114 then parse_str f r2 (13 :: acc)
-    else if e =? 116 then parse_str f r2 (9 :: acc)
-    else if e =? 117 then
-      match read_hex4 r2 with
-      | None => None
-      | Some (cp, r3) =>
-          if is_high_surrogate cp then
-            match (match eat 92 r3 with Some x => eat 117 x | None => None end) with
-            | Some r4 =>
-                match read_hex4 r4 with
-                | Some (lo, r5) =>
-                    if is_low_surrogate lo then
-                      parse_str f r5 (rev (utf8_encode (65536 + (cp - 55296) * 1024 + (lo - 56320))) ++ acc)
-                    else parse_str f r3 (rev replacement_char ++ acc)
-                | None => parse_str f r3 (rev replacement_char ++ acc)
-                end
-            | None => parse_str f r3 (rev replacement_char ++ acc)
-            end
-          else if is_low_surrogate cp then parse_str f r3 (rev replacement_char ++ acc)
-          else parse_str f r3 (rev (utf8_encode cp) ++ acc)
-      end
-    else None.
-
-Lemma parse_str_unfold f c r acc :
-  parse_str (S f) (c :: r) acc =
-    if c =? 34 then Some (rev acc, r)
-    else if c <? 32 then None
-    else if c =? 92 then match r with [] => None | e :: r2 => esc_step f e r2 acc end
-    else parse_str f r (c :: acc).
-Proof. rewrite rev_alt. reflexivity. Qed.
-
 Lemma read_hex4_inv s cp r : read_hex4 s = Some (cp, r) ->
   exists a b c d, s = a :: b :: c :: d :: r /\ read_hex4 [a; b; c; d] = Some (cp, []).
 Proof.
